@@ -56,6 +56,86 @@ def ops_from_path(path, states, nsock, rng):
     return ops
 
 
+NIC2 = dict(id=2, mtu=1500, addr4=['10.0.1.1'], addr6=['fd01::1'])
+
+
+def nic_ops_from_path(path, nsock, rng):
+    """One DemuxNic graph path -> sockd script on a host with two interfaces (binds / connects that name an interface,
+    promiscuous mode per interface, datagrams injected on either interface)."""
+    ops = [dict(op='udp', s=s, v=4) for s in range(nsock)]
+    eph = set()
+    bound = set()
+    for st in path:
+        a, args = st['a'], st['args']
+        if a == 'BindUdp':
+            ops.append(dict(op='bind', s=args[0], addr=args[1], port=args[2], nic=args[3], _ok=args[4]))
+            if args[4]:
+                bound.add(args[0])
+        elif a == 'ConnectUdp':
+            ops.append(dict(op='connect', s=args[0], addr=args[1], port=args[2], nic=args[3], _ok=args[4]))
+            if args[4] and args[0] not in bound:
+                eph.add(args[0])
+        elif a == 'CloseSock':
+            ops.append(dict(op='close', s=args[0]))
+        elif a == 'Promisc':
+            ops.append(dict(op='promisc', nic=args[0], on=bool(args[1])))
+        elif a == 'Inject':
+            nic, src, sport, dst, dport, t = args
+            dp = dport
+            if 100 <= dport < 5000:
+                s = dport - 100
+                dp = dict(lportof=s, **{'else': dport}) if s in eph else dport
+            ops.append(dict(op='inject', kind='udp', v=4, nic=nic, src=src, sport=sport, dst=dst, dport=dp,
+                            n=rng.choice([0, 1, 7, 8, 33, 200]), seed=rng.randrange(1 << 20), _target=t))
+            ops.append(dict(op='readall'))
+        else:
+            raise vlib.Inconclusive('unknown DemuxNic action ' + a)
+    return ops
+
+
+def nic_seeded(ctx, n):
+    """Seeded scenarios on two interfaces: UDP sockets and TCP listeners bound to an interface (or not), traffic arriving on either
+    interface for either interface's address, promiscuous mode, IPv6."""
+    rng = ctx.rng
+    out = []
+    for i in range(n):
+        ops = []
+        if i % 2 == 0:
+            b0, b1 = rng.choice([0, 1, 2]), rng.choice([0, 1, 2])
+            a1 = rng.choice(['10.0.0.1', '10.0.1.1', ''])
+            ops += [dict(op='udp', s=0, v=4), dict(op='bind', s=0, addr='', port=5000, nic=b0),
+                    dict(op='udp', s=1, v=4), dict(op='bind', s=1, addr=a1, port=5001, nic=b1),
+                    dict(op='udp', s=2, v=6), dict(op='bind', s=2, addr='', port=5002, nic=rng.choice([0, 1, 2]))]
+            if rng.random() < 0.4:
+                ops.append(dict(op='connect', s=0, addr='10.0.0.9', port=7, nic=rng.choice([0, 1])))
+            for j in range(rng.randrange(6, 12)):
+                if rng.random() < 0.15:
+                    ops.append(dict(op='promisc', nic=rng.choice([1, 2]), on=rng.random() < 0.7))
+                nic = rng.choice([1, 2])
+                if rng.random() < 0.25:
+                    ops.append(dict(op='inject', kind='udp', v=6, nic=nic, src='fd00::9', sport=7, dst=rng.choice(['fd00::1', 'fd01::1']), dport=5002,
+                                    n=rng.randrange(0, 40), seed=rng.randrange(1 << 20)))
+                else:
+                    ops.append(dict(op='inject', kind='udp', v=4, nic=nic, src=rng.choice(['10.0.0.9', '10.0.0.8']), sport=7,
+                                    dst=rng.choice(['10.0.0.1', '10.0.1.1', '10.0.0.2', '10.0.0.77']), dport=rng.choice([5000, 5001, 5002]),
+                                    n=rng.randrange(0, 40), seed=rng.randrange(1 << 20)))
+                ops.append(dict(op='readall'))
+        else:
+            # a TCP listener bound to an interface: SYNs that arrive on the other interface find no socket (reset), and so do
+            # SYNs for the other interface's address that arrive where they do not belong (nothing at all)
+            bl = rng.choice([0, 1, 2, 2])
+            ops += [dict(op='tcp', s=0, v=4), dict(op='bind', s=0, addr='', port=80, nic=bl), dict(op='listen', s=0, backlog=8)]
+            for j in range(rng.randrange(4, 9)):
+                nic = rng.choice([1, 2])
+                dst = rng.choice(['10.0.0.1', '10.0.1.1']) if rng.random() < 0.3 else ('10.0.0.1' if nic == 1 else '10.0.1.1')
+                ops.append(dict(op='inject', kind='tcp', v=4, nic=nic, src='10.0.0.9', sport=30000 + j, dst=dst, dport=rng.choice([80, 80, 81]),
+                                flags='S', seqhi=rng.randrange(65536), seqlo=rng.randrange(65536), ackhi=0, acklo=0, n=0, seed=0))
+                ops.append(dict(op='settle', ms=20))
+            ops.append(dict(op='close', s=0))       # (an operation ends the expectation that the last SYN left open)
+        out.append(dict(nics=[NIC, NIC2], ops=ops))
+    return out
+
+
 def tcp_ops_from_path(path, nsock, rng):
     """One DemuxTcp graph path -> sockd script (TCP sockets: bind / listen / active open / close, injected SYN and SYN-ACK)."""
     ops = [dict(op='tcp', s=s, v=4) for s in range(nsock)]
@@ -313,8 +393,23 @@ def run(ctx):
     scs = []
     for p in script['paths']:
         scs.append(dict(nics=[NIC], ops=ops_from_path(p, script['states'], nsock, ctx.rng)))
+    # ---- the interface dimension: DemuxNic (two interfaces, per-interface tables before the stack-wide one, promiscuous mode)
+    cn = cfg(constants=dict(Socks=MV('{0, 1}'), Ports=MV('{5000}'), Remotes=MV('{"10.0.0.9"}'), RPorts=MV('{7}'), Foreign='10.0.0.77'),
+             invariants=['LookupMatchesTarget', 'OneRegPerId', 'UniqueTarget', 'NicBoundOnlyOwnNic'])
+    rn = ctx.tlc('DemuxNic', cn, SPEC, name='DemuxNic', dump_dot=True, must_pass=True, coverage=False, timeout=1800)
+    script_n, stats_n = vlib.graph_script(ctx, rn)
+    ctx.extra['nic_graph'] = stats_n
+    npaths = list(script_n['paths'])
+    if not ctx.thorough():
+        # quick: a sample of the edge cover, preferring paths in which a datagram arrives while a socket is bound to an interface
+        ctx.rng.shuffle(npaths)
+        npaths.sort(key=lambda p: -sum(1 for st in p if st['a'] in ('BindUdp', 'ConnectUdp') and st['args'][3] != 0 and st['args'][4]))
+        npaths = npaths[:60]
+    nic_scs = [dict(nics=[NIC, NIC2], ops=nic_ops_from_path(p, 2, ctx.rng)) for p in npaths]
+    ctx.extra['nic_graph_paths_run'] = len(nic_scs)
+    scs += nic_scs
     nmodel = len(scs)
-    extra = seeded_scenarios(ctx, ctx.pick(40, 600))
+    extra = seeded_scenarios(ctx, ctx.pick(40, 600)) + nic_seeded(ctx, ctx.pick(16, 200))
     # ---- the TCP half of the closed model: listeners and connections (active opens) next to each other
     nst = 2
     ct = cfg(constants=dict(Socks=MV('{0, 1}'), LAddrs=MV('{"10.0.0.1", "10.0.0.2"}'), Ports=MV('{5000}'), Remotes=MV('{"10.0.0.9", "10.0.0.8"}'),
